@@ -1,4 +1,4 @@
-import CoxeterVerif.Lemmas.Inside3DCert
+import CoxeterVerif.Lemmas.Inside3DSphero3
 import CoxeterVerif.Lemmas.Inside3DGlue
 /-!
   # C05 — 3-D point containment equals exact membership
@@ -16,7 +16,9 @@ import CoxeterVerif.Lemmas.Inside3DGlue
     on the implementation's own equations, vertices and faces), `cp_mem_hull_of_cover`;
   * sphere / ellipsoid : `sphere_inside_iff`, `ellipsoid_inside_iff`;
   * spheropolyhedron : `sphero_cylinder_sound`, `sphero_cap_sound`, `sphero_prism_sound`,
-    `sphero_inside_sound_partial`, `far_cert_sound`, `plane_cert_sound`;
+    `sphero_inside_sound_partial`, `far_cert_sound`, `plane_cert_sound`; in exact arithmetic with exact
+    planes (`SpheroExact`): `sphero_inside_sound`, `sphero_inside_complete`, `sphero_inside_iff`
+    (accepted ⇔ distance to the core ≤ r, boundary included); `cp_inside_iff_hull` (`ExactFacets`);
   * winding number : `winding_contribution_rot/rev`, `winding_chain_invariant`, `winding_additive`,
     `poly_tet_winding` (the single-tetrahedron lemma, ANY coordinates), `poly_winding_eq_signed_count`,
     `poly_inside_iff` (+ `_checked`), `poly_inside_iff_ray` (+ `_checked`: any closed surface, signed
@@ -215,6 +217,54 @@ example : MemHull (cubeVq.map CCk.v3OfRat) ⟨1/3, 1/5, 6/7⟩ := by
     simp only [CP.planeDists, planesOfRat, cubeEqsq, List.map_cons, List.map_nil, List.mem_cons,
       List.not_mem_nil, or_false, CP.planeDist, V3.dot, CCk.v3OfRat] at hd
     rcases hd with rfl | rfl | rfl | rfl | rfl | rfl <;> norm_num
+
+/-- **C05 (convex polyhedron, exact arithmetic): accepted ⇔ in the hull, boundary points included.**
+`ExactFacets eqs V` (Lemmas/Inside3DSphero.lean): every vertex satisfies every plane inequality; the
+faces cut into triangles form a closed oriented surface with vertices in `V`, each triangle lying
+exactly in a plane of `eqs`; some point of the hull is strictly inside everything.  (For rounded
+Qhull planes use the margin form `cp_mem_hull_of_inside_cert`.) -/
+theorem cp_inside_iff_hull {eqs : List (Plane ℝ)} {V : List (V3 ℝ)} (h : ExactFacets eqs V) (p : V3 ℝ) :
+    CP.isInside1 eqs p = true ↔ MemHull V p :=
+  cp_inside_iff_hull_exact h p
+
+/-- closed form of `cp_mem_hull_of_inner_side`: `0 ≤ orient p t` for all triangles suffices -/
+theorem cp_mem_hull_of_inner_side_closed (V : List (V3 ℝ)) {S : List (Tri ℝ)} (hcl : CCk.ClosedSurface S)
+    (hne : S ≠ []) (hV : ∀ t ∈ S, t.a ∈ V ∧ t.b ∈ V ∧ t.c ∈ V)
+    (o : V3 ℝ) (hoV : MemHull V o) (ho : ∀ t ∈ S, 0 < orient o t.a t.b t.c)
+    (p : V3 ℝ) (hp : ∀ t ∈ S, 0 ≤ orient p t.a t.b t.c) : MemHull V p :=
+  memHull_of_inner_side_closed V hcl hne hV o hoV ho p hp
+
+/-- the hypotheses are satisfiable: the unit tetrahedron with its four exact planes -/
+def tetQ : Tet ℚ := ⟨⟨0,0,0⟩, ⟨1,0,0⟩, ⟨0,1,0⟩, ⟨0,0,1⟩⟩
+def tetVr : List (V3 ℝ) := [⟨0,0,0⟩, ⟨1,0,0⟩, ⟨0,1,0⟩, ⟨0,0,1⟩]
+
+example : ExactFacets tetEqs tetVr := by
+  have hcl : CCk.ClosedSurface (tetQ.bdry.map CCk.triOfRat) := closedCheck_rat_sound' (by decide +kernel)
+  have hS : tetQ.bdry.map CCk.triOfRat =
+      [⟨⟨0,0,0⟩, ⟨0,1,0⟩, ⟨1,0,0⟩⟩, ⟨⟨0,0,0⟩, ⟨1,0,0⟩, ⟨0,0,1⟩⟩, ⟨⟨1,0,0⟩, ⟨0,1,0⟩, ⟨0,0,1⟩⟩,
+        ⟨⟨0,0,0⟩, ⟨0,0,1⟩, ⟨0,1,0⟩⟩] := by
+    simp [tetQ, Tet.bdry, CCk.triOfRat, CCk.triTo, CCk.v3OfRat]
+  rw [hS] at hcl
+  refine ⟨?_, ⟨1/4, 1/4, 1/4⟩,
+    [(⟨⟨0,0,0⟩, ⟨0,1,0⟩, ⟨1,0,0⟩⟩, ⟨⟨0,0,-1⟩, 0⟩), (⟨⟨0,0,0⟩, ⟨1,0,0⟩, ⟨0,0,1⟩⟩, ⟨⟨0,-1,0⟩, 0⟩),
+     (⟨⟨1,0,0⟩, ⟨0,1,0⟩, ⟨0,0,1⟩⟩, ⟨⟨1,1,1⟩, -1⟩), (⟨⟨0,0,0⟩, ⟨0,0,1⟩, ⟨0,1,0⟩⟩, ⟨⟨-1,0,0⟩, 0⟩)],
+    ?_, by simp, by simpa using hcl, ?_⟩
+  · intro e he v hv
+    simp only [tetEqs, tetVr, List.mem_cons, List.not_mem_nil, or_false] at he hv
+    rcases he with rfl | rfl | rfl | rfl <;> rcases hv with rfl | rfl | rfl | rfl <;>
+      simp only [CP.planeDist, V3.dot] <;> norm_num
+  · refine ⟨[1/4, 1/4, 1/4, 1/4], rfl, ⟨?_, ?_⟩, ?_⟩
+    · intro w hw
+      simp only [List.mem_cons, List.not_mem_nil, or_false] at hw
+      simp only [Scalar.lit, Scalar.ofNat_real]
+      rcases hw with rfl | rfl | rfl | rfl <;> norm_num
+    · simp only [Scalar.sum_real, Scalar.lit, Scalar.ofNat_real]; norm_num
+    · simp only [tetVr, comb]; ext <;> norm_num
+  · intro f hf
+    simp only [List.mem_cons, List.not_mem_nil, or_false] at hf
+    rcases hf with rfl | rfl | rfl | rfl <;>
+      refine ⟨by simp [tetEqs], ⟨by simp [tetVr], by simp [tetVr], by simp [tetVr]⟩, ?_, ?_, ?_, ?_, ?_⟩ <;>
+      simp only [orient, CP.planeDist, V3.dot, V3.det3, V3.cross, V3.sub_x, V3.sub_y, V3.sub_z] <;> norm_num
 
 /-! ### sphere, ellipsoid -/
 
@@ -470,6 +520,153 @@ theorem sphero_accepts_of_candidate (r : ℝ) (eqs : List (Plane ℝ)) (faces : 
   rw [Bool.or_eq_true]; right
   rw [List.any_eq_true]
   exact ⟨c, hc, by rw [h1, h2]; rfl⟩
+
+/-! ### spheropolyhedron with an exactly described core: accepted ⇔ within `r` of the core -/
+
+/-- **C05 (spheropolyhedron, soundness — no `hcore` / `hprism`).**  `SpheroExact V r Fs`
+(Lemmas/Inside3DSphero3.lean): `0 ≤ r`; the core's planes/vertices and (for `r > 0`) every extruded
+prism's planes/vertices are exact facet structures (`ExactFacets`); unit normals; every face lists
+exactly the vertices on its plane, and two faces with different planes share at most the two ends of
+one edge (a consecutive pair of the face's cyclic order).  Every accepted point is within `r` of the core. -/
+theorem sphero_inside_sound {V : List (V3 ℝ)} {r : ℝ} {Fs : List FaceData} (hS : SpheroExact V r Fs)
+    (p : V3 ℝ)
+    (h : Sphero.isInside1 r (Fs.map (·.plane)) (Fs.map (·.pts)) (Fs.map (·.prism)) p = true) :
+    MemSphero V r p := by
+  obtain ⟨_, hEx, hF, _⟩ := hS
+  rw [isInside1_faces, Bool.or_eq_true] at h
+  rcases h with h | h
+  · exact sphero_core_sound V r p ((cp_inside_iff_hull_exact hEx p).mp h)
+  · rw [List.any_eq_true] at h
+    obtain ⟨f, hf, hc⟩ := h
+    rw [Bool.and_eq_true] at hc
+    obtain ⟨hcand, hchk⟩ := hc
+    obtain ⟨hn, hpts, _, hprism⟩ := hF f hf
+    have hrpos : 0 < r := by
+      unfold Sphero.toCheck at hcand
+      simp only [Bool.and_eq_true, decide_eq_true_iff, Bool.not_eq_true', decide_eq_false_iff_not, not_le,
+        Scalar.lit, Scalar.ofNat_real, Nat.cast_zero] at hcand
+      linarith [hcand.1, hcand.2]
+    unfold Sphero.checkFace at hchk
+    split at hchk
+    · rename_i h1
+      have hmem := (cp_inside_iff_hull_exact (hprism hrpos) p).mp h1
+      exact sphero_prism_sound V r f.plane.n hn.le f.pts (fun v hv => (hpts v hv).1) p hmem
+    · simp only at hchk
+      split at hchk
+      · rename_i h2
+        rw [List.any_eq_true] at h2
+        obtain ⟨⟨s, e⟩, hse, hcyl⟩ := h2
+        have hs := (List.of_mem_zip hse).1
+        have he := mem_roll (List.of_mem_zip hse).2
+        exact sphero_cylinder_sound V r p s e (hpts s hs).1 (hpts e he).1 hcyl
+      · rw [List.any_eq_true] at hchk
+        obtain ⟨s, hs, hcap⟩ := hchk
+        exact sphero_cap_sound V r p s (hpts s hs).1 hcap
+
+/-- **C05 (spheropolyhedron, completeness).**  Every point within `r` of the core is accepted (no
+nearest-point projection needed: walk from any core point within `r` towards `p`; the exit point lies
+on a face that `p` sees; then either the foot of `p` is in that face — prism — or a second walk inside
+the face plane ends on one of its edges — cylinder or cap). -/
+theorem sphero_inside_complete {V : List (V3 ℝ)} {r : ℝ} {Fs : List FaceData} (hS : SpheroExact V r Fs)
+    (p : V3 ℝ) (h : MemSphero V r p) :
+    Sphero.isInside1 r (Fs.map (·.plane)) (Fs.map (·.pts)) (Fs.map (·.prism)) p = true :=
+  sphero_complete hS p h
+
+/-- **C05 (spheropolyhedron): accepted ⇔ distance to the core at most `r`**, in exact arithmetic with
+exact planes, boundary points included. -/
+theorem sphero_inside_iff {V : List (V3 ℝ)} {r : ℝ} {Fs : List FaceData} (hS : SpheroExact V r Fs)
+    (p : V3 ℝ) :
+    Sphero.isInside1 r (Fs.map (·.plane)) (Fs.map (·.pts)) (Fs.map (·.prism)) p = true ↔ MemSphero V r p :=
+  ⟨sphero_inside_sound hS p, sphero_inside_complete hS p⟩
+
+def cornerQ : Tet ℚ := ⟨⟨0,0,0⟩, ⟨1/2,0,0⟩, ⟨0,1/3,0⟩, ⟨0,0,1/6⟩⟩
+def cornerV : List (V3 ℝ) := [⟨0,0,0⟩, ⟨1/2,0,0⟩, ⟨0,1/3,0⟩, ⟨0,0,1/6⟩]
+def cornerFs : List FaceData :=
+  [⟨⟨⟨0,0,-1⟩, 0⟩, [], [⟨0,0,0⟩, ⟨0,1/3,0⟩, ⟨1/2,0,0⟩]⟩,
+   ⟨⟨⟨0,-1,0⟩, 0⟩, [], [⟨0,0,0⟩, ⟨1/2,0,0⟩, ⟨0,0,1/6⟩]⟩,
+   ⟨⟨⟨-1,0,0⟩, 0⟩, [], [⟨0,0,0⟩, ⟨0,0,1/6⟩, ⟨0,1/3,0⟩]⟩,
+   ⟨⟨⟨2/7,3/7,6/7⟩, -1/7⟩, [], [⟨1/2,0,0⟩, ⟨0,1/3,0⟩, ⟨0,0,1/6⟩]⟩]
+
+/-- the hypotheses are satisfiable: the corner tetrahedron `(0,0,0), (1/2,0,0), (0,1/3,0), (0,0,1/6)` (its slanted face
+has the rational unit normal `(2,3,6)/7`) with rounding radius `0` -/
+theorem corner_exactFacets : ExactFacets (cornerFs.map (·.plane)) cornerV := by
+  have hcl : CCk.ClosedSurface (cornerQ.bdry.map CCk.triOfRat) := closedCheck_rat_sound' (by decide +kernel)
+  have hS : cornerQ.bdry.map CCk.triOfRat =
+      [⟨⟨0,0,0⟩, ⟨0,1/3,0⟩, ⟨1/2,0,0⟩⟩, ⟨⟨0,0,0⟩, ⟨1/2,0,0⟩, ⟨0,0,1/6⟩⟩, ⟨⟨1/2,0,0⟩, ⟨0,1/3,0⟩, ⟨0,0,1/6⟩⟩,
+        ⟨⟨0,0,0⟩, ⟨0,0,1/6⟩, ⟨0,1/3,0⟩⟩] := by
+    simp [cornerQ, Tet.bdry, CCk.triOfRat, CCk.triTo, CCk.v3OfRat]
+  rw [hS] at hcl
+  refine ⟨?_, ⟨1/8, 1/12, 1/24⟩,
+    [(⟨⟨0,0,0⟩, ⟨0,1/3,0⟩, ⟨1/2,0,0⟩⟩, ⟨⟨0,0,-1⟩, 0⟩), (⟨⟨0,0,0⟩, ⟨1/2,0,0⟩, ⟨0,0,1/6⟩⟩, ⟨⟨0,-1,0⟩, 0⟩),
+     (⟨⟨1/2,0,0⟩, ⟨0,1/3,0⟩, ⟨0,0,1/6⟩⟩, ⟨⟨2/7,3/7,6/7⟩, -1/7⟩), (⟨⟨0,0,0⟩, ⟨0,0,1/6⟩, ⟨0,1/3,0⟩⟩, ⟨⟨-1,0,0⟩, 0⟩)],
+    ?_, by simp, by simpa using hcl, ?_⟩
+  · intro e he v hv
+    simp only [cornerFs, cornerV, List.map_cons, List.map_nil, List.mem_cons, List.not_mem_nil, or_false] at he hv
+    rcases he with rfl | rfl | rfl | rfl <;> rcases hv with rfl | rfl | rfl | rfl <;>
+      simp only [CP.planeDist, V3.dot] <;> norm_num
+  · refine ⟨[1/4, 1/4, 1/4, 1/4], rfl, ⟨?_, ?_⟩, ?_⟩
+    · intro w hw
+      simp only [List.mem_cons, List.not_mem_nil, or_false] at hw
+      simp only [Scalar.lit, Scalar.ofNat_real]
+      rcases hw with rfl | rfl | rfl | rfl <;> norm_num
+    · simp only [Scalar.sum_real, Scalar.lit, Scalar.ofNat_real]; norm_num
+    · simp only [cornerV, comb]; ext <;> norm_num
+  · intro f hf
+    simp only [List.mem_cons, List.not_mem_nil, or_false] at hf
+    rcases hf with rfl | rfl | rfl | rfl <;>
+      refine ⟨by simp [cornerFs], ⟨by simp [cornerV], by simp [cornerV], by simp [cornerV]⟩, ?_, ?_, ?_, ?_, ?_⟩ <;>
+      simp only [orient, CP.planeDist, V3.dot, V3.det3, V3.cross, V3.sub_x, V3.sub_y, V3.sub_z] <;> norm_num
+
+theorem corner_spheroExact : SpheroExact cornerV 0 cornerFs := by
+  refine ⟨le_refl _, corner_exactFacets, ?_, ?_⟩
+  · intro f hf
+    simp only [cornerFs, List.mem_cons, List.not_mem_nil, or_false] at hf
+    rcases hf with rfl | rfl | rfl | rfl <;>
+    refine ⟨by simp only [V3.normSq, V3.dot]; norm_num, ?_, ?_, fun h => absurd h (lt_irrefl _)⟩
+    all_goals
+      first
+      | (intro v hv
+         simp only [List.mem_cons, List.not_mem_nil, or_false] at hv
+         rcases hv with rfl | rfl | rfl <;>
+           exact ⟨by simp [cornerV], by simp only [CP.planeDist, V3.dot]; norm_num⟩)
+      | (intro v hv h0
+         simp only [cornerV, List.mem_cons, List.not_mem_nil, or_false] at hv
+         rcases hv with rfl | rfl | rfl | rfl <;>
+           first
+           | (exfalso; revert h0; norm_num [CP.planeDist, V3.dot]; done)
+           | simp)
+  · intro f hf g hg hne
+    simp only [cornerFs, List.mem_cons, List.not_mem_nil, or_false] at hf hg
+    rcases hf with rfl | rfl | rfl | rfl <;> rcases hg with rfl | rfl | rfl | rfl
+    all_goals
+      first
+      | exact absurd rfl hne
+      | (refine ⟨(_, _), List.mem_cons_self, ?_⟩
+         intro v hv h1 h2
+         simp only [cornerV, List.mem_cons, List.not_mem_nil, or_false] at hv
+         rcases hv with rfl | rfl | rfl | rfl <;>
+           first
+           | (left; rfl) | (right; rfl)
+           | (exfalso; revert h1 h2; norm_num [CP.planeDist, V3.dot]; done))
+      | (refine ⟨(_, _), List.mem_cons_of_mem _ List.mem_cons_self, ?_⟩
+         intro v hv h1 h2
+         simp only [cornerV, List.mem_cons, List.not_mem_nil, or_false] at hv
+         rcases hv with rfl | rfl | rfl | rfl <;>
+           first
+           | (left; rfl) | (right; rfl)
+           | (exfalso; revert h1 h2; norm_num [CP.planeDist, V3.dot]; done))
+      | (refine ⟨(_, _), List.mem_cons_of_mem _ (List.mem_cons_of_mem _ List.mem_cons_self), ?_⟩
+         intro v hv h1 h2
+         simp only [cornerV, List.mem_cons, List.not_mem_nil, or_false] at hv
+         rcases hv with rfl | rfl | rfl | rfl <;>
+           first
+           | (left; rfl) | (right; rfl)
+           | (exfalso; revert h1 h2; norm_num [CP.planeDist, V3.dot]; done))
+
+example (p : V3 ℝ) :
+    Sphero.isInside1 0 (cornerFs.map (·.plane)) (cornerFs.map (·.pts)) (cornerFs.map (·.prism)) p = true ↔
+      MemSphero cornerV 0 p :=
+  sphero_inside_iff corner_spheroExact p
 
 /-! ### soundness of the oracle's certificates -/
 
